@@ -270,6 +270,8 @@ def do_fs(op, a):
     return None
 
 def do(op, a):
+    if op == 'seq':
+        return [do(o, x) for o, x in a]
     r = do_fs(op, a)
     if r is not None:
         return r
@@ -391,7 +393,7 @@ def do(op, a):
         return out(lambda: [t_sid(x) for x in sorted(expand(a[0]), key=lambda x: (x.string, x.type))])
     if op in ('find_list', 'find_list_sids', 'find_one', 'exists'):
         from spil import FindInList
-        fl = FindInList(list(a[0]))
+        fl = FindInList(list(a[0]), do_pre_sort=(len(a) > 2 and a[2] == 'pre_sort'))
         if op == 'find_list':
             return out(lambda: list(fl.find(a[1], as_sid=False)))
         if op == 'find_list_sids':
